@@ -29,6 +29,16 @@ def lcall (t : List Char) : String :=
   let outs := (List.range (u8sum s + 2)).map (fun p => showLC (m.lineColForPos p))
   hex s ++ " " ++ " ".intercalate outs
 
+/-- `rangeall <hex>`: `convert::to_range` (= both ends through `lineColForPos`) for every ordered pair of
+character boundaries -/
+def rangeall (t : List Char) : String :=
+  let s := stripCR t
+  let m := lineMap s
+  let bs := (List.range (u8sum s + 1)).filter (isBoundary s)
+  let outs := bs.zipIdx.flatMap (fun (a, i) => (bs.drop i).map (fun b =>
+    showLC (m.lineColForPos a) ++ "-" ++ showLC (m.lineColForPos b)))
+  " ".intercalate outs
+
 /-- `posall <hex> <maxline> <maxcol>`: pos for the whole grid -/
 def posall (t : List Char) (ml mc : Nat) : String :=
   let m := lineMap (stripCR t)
@@ -65,6 +75,7 @@ def showToks : Option (List SemTok) → String
 def run (args : List String) : Option String :=
   match args with
   | ["lcall", h] => (unhex h).map lcall
+  | ["rangeall", h] => (unhex h).map rangeall
   | ["posall", h, ml, mc] =>
     match unhex h, nat? ml, nat? mc with
     | some t, some ml, some mc => some (posall t ml mc)
